@@ -1,7 +1,11 @@
 (* C08 - search set, counting and root-attribute classification is sound.
-   Statements only; model in Incl/InclModel.v, proofs in Incl/InclGeom.v and Incl/InclProps.v. *)
-From Coq Require Import Reals Lra Lia List Bool Arith.
-Require Import MPSV.Incl.InclModel MPSV.Incl.InclGeom MPSV.Incl.InclProps.
+   Statements only; models in Incl/InclModel.v (classification) and Incl/TouchModel.v (the touch tests in binary64 / DPE /
+   truncated multiprecision arithmetic, run against the real functions on every check), proofs in Incl/InclGeom.v,
+   Incl/InclProps.v and Incl/TouchProps.v. *)
+From Coq Require Import ZArith Reals Lra Lia List Bool Arith.
+From Flocq Require Import Core BinarySingleNaN.
+Require Import MPSV.Dpe.DpeDefs MPSV.Dpe.DpeModel.
+Require Import MPSV.Incl.InclModel MPSV.Incl.InclGeom MPSV.Incl.InclProps MPSV.Incl.TouchModel MPSV.Incl.TouchExch MPSV.Incl.TouchProps.
 Import ListNotations.
 Local Open Scope R_scope.
 
@@ -175,3 +179,97 @@ Proof.
   unfold in_disc. repeat split; try lra.
   - unfold Rabs; destruct (Rcase_abs _); lra.
 Qed.
+
+(* ============================================================================================================
+   The coded touch tests (Incl/TouchModel.v, bit for bit the functions of common/touch.c; tied by harness/c08_incl.c)
+   ============================================================================================================ *)
+
+(* --- mps_ftouchreal / mps_ftouchimag in IEEE binary64 (Flocq): `no touch' implies n * r < |c| EXACTLY, for every factor
+       n the code uses (1, n, 2n), every finite centre coordinate and every finite radius >= 0.  No margin is lost: the
+       product is rounded to nearest, rounding is monotone and |c| is a double; an overflowing product compares as
+       +infinity (touch), the DBL_MAX / n guard only answers `touch'.  Together with C08_touch_axis_sound this discharges
+       obs_sound's os_real / os_imag / os_real1 / os_imag1 for the floating point phase. *)
+Theorem C08_ftouch_axis_sound : forall (n : Z) (r c : b64),
+  (1 <= n < 2 ^ 31)%Z -> is_finite r = true -> is_finite c = true -> 0 <= B2R r ->
+  ftouch_axis n r c = false -> IZR n * B2R r < Rabs (B2R c).
+Proof. exact ftouch_axis_sound. Qed.
+Print Assumptions C08_ftouch_axis_sound.
+
+(* non-vacuity: r = 1/2, c = -2, n = 3: clear; and the tangent case n * r = |c| (r = 1/2, c = 1, n = 2) touches *)
+Example C08_ftouch_axis_nonvacuous :
+  ftouch_axis 3 fhalf (Bopp ftwo) = false /\ ftouch_axis 2 fhalf fone = true /\ ftouch_axis 2 fhalf (Bopp fone) = true.
+Proof. vm_compute. repeat split. Qed.
+
+(* --- mps_dtouchreal / mps_dtouchimag in DPE arithmetic (the executable C12 model: rdpe_mul_d, rdpe_abs, rdpe_ge): `no touch'
+       implies n * r < |c| EXACTLY for normalised operands whose exponents are not within 2000 of the ends of `long'
+       (where rdpe_mul_d saturates).  Uses C12's norm_exact and order_correct and the monotonicity of the rounding. *)
+Theorem C08_dtouch_axis_sound : forall (n : Z) (r c : rdpe),
+  (1 <= n < 2 ^ 31)%Z -> normalised r -> normalised c -> 0 <= rval r ->
+  (LONG_MIN + 2000 <= esp r <= LONG_MAX - 2000)%Z -> in_long (esp c) ->
+  dtouch_axis n r c = false -> IZR n * rval r < Rabs (rval c).
+Proof. exact dtouch_axis_sound. Qed.
+Print Assumptions C08_dtouch_axis_sound.
+
+(* r = 1/2, c = -2, n = 3 clear; tangent n r = |c| (r = 1/2, c = 1, n = 2) touches *)
+Example C08_dtouch_axis_nonvacuous :
+  dtouch_axis 3 (Rdpe fhalf 0) (Rdpe fmhalf 2) = false /\ dtouch_axis 2 (Rdpe fhalf 0) (Rdpe fhalf 1) = true /\
+  normalised (Rdpe fhalf 0) /\ normalised (Rdpe fmhalf 2) /\
+  mtouch_axis 3 (Rdpe fhalf 0) (-9007199254740993) (-52) = false.
+Proof.
+  split; [vm_compute; reflexivity|]. split; [vm_compute; reflexivity|].
+  split; [apply MPSV.Dpe.DpeProps.normalised_half|]. split; [apply MPSV.Dpe.DpeProps.normalised_mhalf|]. vm_compute; reflexivity.
+Qed.
+
+(* --- PARTIAL: mps_mtouchreal / mps_mtouchimag are the DPE test applied to the centre coordinate truncated to 53 bits
+       (TouchModel.mpf_get_rdpe): `no touch' implies n * r < |trunc53 c|.  Missing: |trunc53 c| <= |c| and that
+       mpf_get_rdpe returns a normalised DPE (both hold by construction of trunc53 / rdpe_set_2dl, not proved here; the
+       abstract form of the remaining step is C08_dm_touch_axis_sound_partial below). *)
+Theorem C08_mtouch_axis_sound_partial : forall (n : Z) (r : rdpe) (cm ce : Z),
+  (1 <= n < 2 ^ 31)%Z -> normalised r -> normalised (mpf_get_rdpe cm ce) -> 0 <= rval r ->
+  (LONG_MIN + 2000 <= esp r <= LONG_MAX - 2000)%Z -> in_long (esp (mpf_get_rdpe cm ce)) ->
+  mtouch_axis n r cm ce = false -> IZR n * rval r < Rabs (rval (mpf_get_rdpe cm ce)).
+Proof. exact mtouch_axis_sound_trunc. Qed.
+Print Assumptions C08_mtouch_axis_sound_partial.
+
+(* --- PARTIAL: the DPE and multiprecision axis tests.  mps_dtouchreal/imag compare rd (n * r) with |c|, mps_mtouchreal/imag
+       with tc = |c| truncated to 53 bits (mpf_get_rdpe, TouchModel.trunc53): for ANY monotone rounding rd of the product
+       that leaves tc unchanged, `no touch' implies n * r < |c| exactly.  For the DPE test this is superseded by
+       C08_dtouch_axis_sound (rd = the rounding of rdpe_mul_d, tc = |c|); it remains the statement of the truncation step of
+       the multiprecision test (tc = |trunc53 c| <= |c|).  The executable d and m models are run against
+       the real functions on every check, and every `no touch' is judged by exact rational arithmetic. *)
+Theorem C08_dm_touch_axis_sound_partial : forall (rd : R -> R) (n r c tc : R),
+  (forall x y, x <= y -> rd x <= rd y) -> rd tc = tc -> tc <= Rabs c ->
+  rd (n * r) < tc -> n * r < Rabs c.
+Proof. exact axis_test_abstract_sound. Qed.
+Print Assumptions C08_dm_touch_axis_sound_partial.
+
+(* non-vacuity: truncation to integers as rd, n = 2, r = 1.25 (rd 2.5 = 2), c = -3.5, tc = 3 *)
+Example C08_dm_touch_axis_nonvacuous : 2 < 3 /\ 3 <= Rabs (- (7 / 2)) /\ 2 * (5 / 4) < Rabs (- (7 / 2)).
+Proof. rewrite Rabs_Ropp, Rabs_pos_eq by lra. lra. Qed.
+
+(* --- REFUTED at the boundary: mps_mtouchunit is strict where the other two variants are not.  Radius 0 with the centre
+       on the circle, and a disc tangent from inside, are declared clear (first four conjuncts / last four); with rdpe_ge
+       (fixes/C08_munit_tangent.patch) they touch.  Replayed on the real function on every run (T lines w-m-unit-...). *)
+Theorem C08_mtouchunit_tangent_refuted :
+  exists r ab r' ab' : rdpe,
+    rval r = 0 /\ rval ab = 0 /\ mtouch_unit_ab 2 r ab = false /\ mtouch_unit_ab_ge 2 r ab = true /\
+    rval r' = / 4 /\ rval ab' = - / 2 /\ mtouch_unit_ab 2 r' ab' = false /\ mtouch_unit_ab_ge 2 r' ab' = true.
+Proof. exact mtouchunit_tangent_refuted. Qed.
+Print Assumptions C08_mtouchunit_tangent_refuted.
+
+(* --- REFUTED within an ulp of the circle: mps_ftouchunit (and the side test of mps_fupdate_inclusions) trust the rounded
+       modulus.  A centre strictly outside the circle whose disc meets it: `no touch', side `inside'.  Replayed on the
+       real function (T line w-f-unit-modulus-rounding).  Known finding, open (function level). *)
+Theorem C08_ftouchunit_refuted :
+  exists x y r : b64, is_finite x = true /\ is_finite y = true /\ is_finite r = true /\ 0 <= B2R r /\
+    ftouch_unit 2 r x y = false /\ flt (cplx_mod_f x y) fone = true /\
+    1 < B2R x * B2R x + B2R y * B2R y <= (1 + B2R r) * (1 + B2R r).
+Proof. exact ftouchunit_refuted. Qed.
+Print Assumptions C08_ftouchunit_refuted.
+
+(* --- the same for mps_dtouchunit in DPE arithmetic (exact geometry over Z: x = X / S, y = Y / S, r = 1 / S) *)
+Theorem C08_dtouchunit_refuted :
+  exists X Y S : Z, (X = 8783257514563430 * 8)%Z /\ (Y = -7984009867200034 * 2)%Z /\ (S = 2 ^ 56)%Z /\
+    (dtouch_unit 2 (dpe_of_dyadic 1 (-56)) wit_dz = false) /\ wit_geom X Y S.
+Proof. exact dtouchunit_refuted. Qed.
+Print Assumptions C08_dtouchunit_refuted.
